@@ -75,6 +75,7 @@ type summary struct {
 	Faults      map[string]int `json:"faults"`
 	FaultyRuns  int            `json:"faulty_runs"`
 	CleanRuns   int            `json:"fault_free_runs"`
+	NoErrRuns   int            `json:"runs_without_error_faults"`
 	Nontrivial  []string       `json:"nontrivial"`
 	Schedules   []string       `json:"schedules"`
 	Overlaps    []string       `json:"overlaps"`
@@ -475,7 +476,7 @@ func writeEvidence(cfg tierCfg, sums []summary, wall float64, nViol, raceRuns, r
 	sites := map[int]bool{}
 	faults := map[string]int{}
 	opKinds := map[string]int{}
-	var runs, ops, faulty, clean, siteTotal int
+	var runs, ops, faulty, clean, noerr, siteTotal int
 	var steps, switches, preempts, maxOp uint64
 	var samples []any
 	var trace []string
@@ -487,6 +488,7 @@ func writeEvidence(cfg tierCfg, sums []summary, wall float64, nViol, raceRuns, r
 		preempts += s.Preempts
 		faulty += s.FaultyRuns
 		clean += s.CleanRuns
+		noerr += s.NoErrRuns
 		if s.MaxOpSteps > maxOp {
 			maxOp = s.MaxOpSteps
 		}
@@ -560,6 +562,8 @@ func writeEvidence(cfg tierCfg, sums []summary, wall float64, nViol, raceRuns, r
 			"faults_fired":               faults,
 			"runs_with_faults":           faulty,
 			"runs_fault_free":            clean,
+			"runs_without_error_faults":  noerr,
+			"fault_accounting_note":      "faults_fired counts events that actually fired. frag/short-write/backpressure/stall only perturb delivery and leave the oracle strict; err-transient/err-sticky/data+err/eof-early are error faults, after which the oracle accepts an error return for the affected token or document (never a wrong value). runs_without_error_faults are judged with no relaxation at all.",
 			"op_kinds":                   opKinds,
 			"max_steps_of_one_operation": maxOp,
 			"step_budget":                budget,
